@@ -791,6 +791,14 @@ def _div(c, a, b, rounding_mode=None):
     return to_real(a) / to_real(b)
 
 
+def _where_term(c, k, a, b):
+    k = simp(to_bool(k))
+    if getattr(c, 'split_where', False) and not (z3.is_true(k) or z3.is_false(k)):
+        # case split instead of an If-term (harness option): one path per outcome of the selection
+        return to_real(a) if c.decide(k, None) else to_real(b)
+    return z3.If(k, to_real(a), to_real(b))
+
+
 def _pdiv(c, a, b, **k):
     b = to_real(b)
     if z3.is_rational_value(b) and not is_zero(b):
@@ -898,7 +906,7 @@ _reg(['aten.abs.default', 'aten.abs_.default'], pointwise(lambda c, a: z3.If(to_
 _reg(['aten.sign.default', 'aten.sgn.default'],
      pointwise(lambda c, a: z3.If(to_real(a) > 0, z3.RealVal(1), z3.If(to_real(a) < 0, z3.RealVal(-1), z3.RealVal(0)))))
 _reg(['aten.where.self', 'aten.where.ScalarOther', 'aten.where.ScalarSelf', 'aten.where.Scalar'],
-     pointwise(lambda c, k, a, b: z3.If(to_bool(k), to_real(a), to_real(b)), _where_poison, sel=True))
+     pointwise(lambda c, k, a, b: _where_term(c, k, a, b), _where_poison, sel=True))
 _reg(['aten.masked_fill.Scalar', 'aten.masked_fill_.Scalar', 'aten.masked_fill.Tensor', 'aten.masked_fill_.Tensor'],
      pointwise(lambda c, a, k, v: z3.If(to_bool(k), to_real(v), to_real(a)),
                lambda ctx, c, ps: _where_poison(ctx, (c[1], c[2], c[0]), (ps[1], ps[2], ps[0])), sel=True))
